@@ -282,7 +282,7 @@ pub fn worker_main(sc: &DynScenario, a: &WorkerArgs) -> i32 {
         drop(ctx);
         obs.runs += 1;
         if let Err(_p) = r {
-            let why = guard(|| ()).err().map(|c| c.text()).unwrap_or_default();
+            let why = crate::core::last_panic_text().unwrap_or_default();
             proto_line(
                 "E",
                 &json!({"harness_error": format!("uncaught panic in run {run}: {why}")}),
